@@ -264,6 +264,16 @@ theorem k4_of {tr : Trace} {endT : Int} (h : K4 Cfg.paper tr endT = true) {e : D
   obtain ⟨sd, hsd, ⟨⟨⟨⟨h5, h6⟩, h7⟩, h8⟩, h9⟩⟩ := h3
   exact ⟨sd, hsd, h5, h6, h7, h8, h9⟩
 
+/-! ### KF -/
+
+theorem kf_of {tr : Trace} {endT : Int} (h : KF Cfg.paper tr endT = true) {tb : Int} {b : Br} (hb : (tb, b) ∈ browses tr)
+    (hopen : neverClosed tr b.host = true) {s : Svc} (hs : s ∈ dlvSvcs tr) (hty : s.ty = b.ty)
+    (hreg : registered Cfg.paper tr s = true) : unexpired Cfg.paper tr b.host s endT 0 = true := by
+  have h1 := List.all_eq_true.mp h (tb, b) hb
+  simp only [hopen, Bool.not_true, Bool.false_or] at h1
+  have h2 := List.all_eq_true.mp h1 s hs
+  simpa [hty, hreg] using h2
+
 /-! ### the lookup from `Added` -/
 
 theorem mem_addeds {tr : Trace} {t : Int} {b : Br} {s : Svc} : (t, b, s) ∈ addeds tr ↔ (⟨t, .added b s⟩ : TEv) ∈ tr := by
